@@ -262,4 +262,66 @@ theorem mask_value (a k : Nat) (h : a < 2 ^ (k + 1)) :
     omega
   · simp [hle]
 
+/-! ### names, and the boolean form of "meets the reference semantics" -/
+
+/-- names of the twelve functions -/
+def tag : Radix → List Char
+  | .bin => ['B', 'I', 'N'] | .oct => ['O', 'C', 'T'] | .hex => ['H', 'E', 'X']
+def DEC : List Char := ['D', 'E', 'C']
+/-- `DEC2BIN`, `DEC2OCT`, `DEC2HEX` -/
+def dec2 (r : Radix) : List Char := DEC ++ '2' :: tag r
+/-- `BIN2DEC`, `OCT2DEC`, `HEX2DEC` -/
+def toDec (r : Radix) : List Char := tag r ++ '2' :: DEC
+/-- `BIN2OCT`, … -/
+def cross (r r' : Radix) : List Char := tag r ++ '2' :: tag r'
+
+/-- integers as arguments -/
+abbrev I (z : Int) : S := .num (.int z)
+abbrev T (s : List Char) : S := .text s
+
+/-- the outcome `r` is what the statement demands -/
+def Meets : Want → Res S → Prop
+  | .val v, r => r = .ok v
+  | .err c, r => r = .err c
+  | .anyErr, r => r = .err .num ∨ r = .err .value
+  | .silent, _ => True
+
+
+/-- boolean form of `Meets`; a silent Spec counts as failure, so a decision by evaluation is not
+    vacuous -/
+def meetsB (w : Want) (r : Res S) : Bool :=
+  match w with
+  | .val v => decide (r = .ok v)
+  | .err c => decide (r = .err c)
+  | .anyErr => decide (r = .err .num) || decide (r = .err .value)
+  | .silent => false
+
+def BIN : Radix := .bin
+
+/-- integers `lo … lo+len−1` × places omitted and 1…10 through the model of DEC2BIN -/
+def windowChunk (lo : Int) (len : Nat) : Bool :=
+  (List.range len).all fun i =>
+    let n : Int := (i : Int) + lo
+    meetsB (want (dec2 BIN) (I n) none) (call (dec2 BIN) (I n) none) &&
+    (List.range 10).all fun j =>
+      let k : Int := (j : Int) + 1
+      meetsB (want (dec2 BIN) (I n) (some (I k))) (call (dec2 BIN) (I n) (some (I k)))
+
+/-- four integers beyond each edge of the window, and the places values −1, 0, 11, 12 on the edges -/
+def windowEdges : Bool :=
+  ([-516, -515, -514, -513, 512, 513, 514, 515] : List Int).all (fun n =>
+    meetsB (want (dec2 BIN) (I n) none) (call (dec2 BIN) (I n) none) &&
+    meetsB (want (dec2 BIN) (I n) (some (I 10))) (call (dec2 BIN) (I n) (some (I 10)))) &&
+  ([-512, -1, 0, 1, 511] : List Int).all (fun n =>
+    ([-1, 0, 11, 12] : List Int).all fun k =>
+      meetsB (want (dec2 BIN) (I n) (some (I k))) (call (dec2 BIN) (I n) (some (I k))))
+
+/-- BIN2DEC(DEC2BIN(n)) = n on the whole window -/
+def windowRoundtrip : Bool :=
+  (List.range 1024).all fun i =>
+    let n : Int := (i : Int) - 512
+    match call (dec2 BIN) (I n) none with
+    | .ok (.text s) => decide (call (toDec BIN) (T s) none = .ok (I n))
+    | _ => false
+
 end XlVerif.Lemmas.C19
